@@ -130,9 +130,10 @@ fn main() {
     let (mut n_streams, mut n_frames, mut n_alone, mut n_clean, mut n_garbage, mut n_seg, mut cases) = (0usize, 0usize, 0usize, 0usize, 0usize, 0usize, 0usize);
     let mut garbage_kinds: BTreeMap<u64, usize> = BTreeMap::new();
     let mut lost_with_synclike = 0usize;
+    let mut garbage_with_valid_frame = 0usize;
     let mut params_seen: BTreeMap<String, usize> = BTreeMap::new();
 
-    let nstreams = scale(if thorough { 1500 } else { 160 });
+    let nstreams = scale(if thorough { 8000 } else { 160 });
     for s in 0..nstreams {
         let cfg = random_cfg(&mut rng, &known);
         let Ok(opts) = cfg.options() else { continue };
@@ -234,6 +235,19 @@ fn main() {
             let input: Vec<(&str, String)> = vec![("bytes", esc(&hex(&stream[..stream.len().min(8000)]))), ("frame_offsets", ints(&frame_pos)), ("garbage_kind", gk.to_string()), ("chunks", ints(&sg[..sg.len().min(64)]))];
             if let Some(p) = panic { out.viol_panic("stream-read", &p, &format!("FlacStreamReader panics on frames with garbage (kind {}): {}", gk, p), &input); continue; }
             if exhausted { out.viol("stream-read-no-progress", "FlacStreamReader::read was called more often than the source has bytes without reaching its end", &input); continue; }
+            // garbage derived from real frames (kinds 3, 4) can, together with the bytes that follow
+            // it, spell a complete checksum-valid frame (e.g. a copy cut one byte short whose missing
+            // CRC byte equals the next frame's 0xFF).  The independent decoder decides: if a valid
+            // frame starts anywhere other than at a written frame's offset, the reader may return it
+            // (DESIGN C16_gate) and only membership is required of the returned frames.
+            let contaminated = gk >= 2 && (0..stream.len().saturating_sub(1)).any(|i| stream[i] == 0xFF && (stream[i + 1] == 0xF8 || stream[i + 1] == 0xF9) && !frame_pos.contains(&i) && shared::refdec::frame(&stream[i..], None).is_ok());
+            if contaminated {
+                garbage_with_valid_frame += 1;
+                if let Some(k) = got.iter().position(|g| !w.frames.contains(g)) {
+                    out.viol("fabricated-frame", &format!("returned frame {} ({} samples, {} Hz, {} ch, {} bps) is not one of the written frames (garbage kind {} containing a valid frame)", k, got[k].samples.len(), got[k].rate, got[k].ch, got[k].bps, gk), &input);
+                }
+                continue;
+            }
             match ordered_subsequence(&got, &w.frames) {
                 Err(k) => out.viol("fabricated-frame", &format!("returned frame {} ({} samples, {} Hz, {} ch, {} bps) is not one of the written frames in order (garbage kind {})", k, got[k].samples.len(), got[k].rate, got[k].ch, got[k].bps, gk), &input),
                 Ok(idx) => {
@@ -260,7 +274,7 @@ fn main() {
             ("t", esc("stat")), ("profile", esc(profile())), ("streams", n_streams.to_string()), ("frames", n_frames.to_string()), ("frames_alone", n_alone.to_string()),
             ("clean_concatenations", n_clean.to_string()), ("segmentations", n_seg.to_string()), ("garbage_streams", n_garbage.to_string()),
             ("garbage_kinds", format!("{{{}}}", garbage_kinds.iter().map(|(k, v)| format!("\"{}\":{}", k, v)).collect::<Vec<_>>().join(","))),
-            ("streams_losing_frames_to_synclike_garbage", lost_with_synclike.to_string()), ("frame_params", m(&params_seen)), ("cases_emitted", out.cases.to_string()),
+            ("streams_losing_frames_to_synclike_garbage", lost_with_synclike.to_string()), ("garbage_streams_containing_a_valid_frame", garbage_with_valid_frame.to_string()), ("frame_params", m(&params_seen)), ("cases_emitted", out.cases.to_string()),
             ("viols", out.viols.to_string()), ("viol_keys", out.counts()),
         ])
     );
